@@ -1,4 +1,5 @@
-(* C04 -- lemmas about the verifier model: the linear scan checks every word on its grid. *)
+(* C04 -- lemmas about the verifier model: the linear scan checks every word on its grid, and
+   (since the repair of KF-C04-1) every jump of an accepted function lands on that grid. *)
 From Aelys Require Import Base.Tactics Extracted.OpcodeNumbering Extracted.VerifierTable Model.Verifier.
 Local Open Scope N_scope.
 
@@ -19,62 +20,90 @@ Definition adv_consistent (e : N * (list chk * N)) : bool :=
 Lemma vtable_adv_consistent : forallb adv_consistent vtable = true.
 Proof. vm_compute. reflexivity. Qed.
 
-Lemma w_op_lt (w : N) : w_op w < 256.
-Proof. unfold w_op. apply N.mod_lt. discriminate. Qed.
+Lemma decode_entry (b : N) (cs : list chk) (adv : N) :
+  decode b = DEntry cs adv -> lookup b vtable = Some (cs, adv).
+Proof.
+  unfold decode. intros H.
+  destruct (negb (from_u8_accepts b)); [discriminate|].
+  destruct (negb (is_discriminant b)); [discriminate|].
+  destruct (lookup b vtable) as [[cs' adv']|]; [|discriminate].
+  injection H as -> ->. reflexivity.
+Qed.
 
 Lemma decode_entry_adv (w : N) (cs : list chk) (adv : N) :
   decode (w_op w) = DEntry cs adv -> adv = adv_of w.
 Proof.
-  unfold decode, adv_of. intros H.
-  destruct (from_u8_bound <? w_op w); [discriminate|].
-  destruct (negb (is_discriminant (w_op w))); [discriminate|].
-  destruct (lookup (w_op w) vtable) as [[cs' adv']|] eqn:L; [|discriminate].
-  injection H as -> ->.
-  pose proof (lookup_forallb adv_consistent vtable _ _ vtable_adv_consistent L) as C.
+  intros H. apply decode_entry in H. unfold adv_of.
+  pose proof (lookup_forallb adv_consistent vtable _ _ vtable_adv_consistent H) as C.
   cbn [adv_consistent] in C. apply N.eqb_eq in C. exact C.
 Qed.
 
-(* every word the scan passes on its way has an entry and satisfies its checks *)
+Lemma adv_of_pos (w : N) : 1 <= adv_of w.
+Proof. unfold adv_of. destruct (existsb (N.eqb (w_op w)) skip_opcodes); lia. Qed.
+
+(* ---- the grid as a relation ------------------------------------------------------------------- *)
+Inductive grid (code : list N) : N -> Prop :=
+  | grid_0 : grid code 0
+  | grid_step : forall i w, grid code i -> nthN code i = Some w -> grid code (i + adv_of w).
+
+Lemma on_grid_from_sound (code : list N) :
+  forall fuel i t, on_grid_from fuel code i t = true -> grid code i -> grid code t.
+Proof.
+  induction fuel as [|k IH]; intros i t H G; [discriminate|].
+  cbn [on_grid_from] in H.
+  destruct (i =? t) eqn:E; [apply N.eqb_eq in E; subst; exact G|].
+  destruct (t <? i); [discriminate|].
+  destruct (nthN code i) as [w|] eqn:Hi; [|discriminate].
+  exact (IH _ _ H (grid_step code i w G Hi)).
+Qed.
+
+Lemma on_grid_sound (code : list N) (t : N) : on_grid code t = true -> grid code t.
+Proof. intros H. exact (on_grid_from_sound code _ 0 t H (grid_0 code)). Qed.
+
+(* every word the scan passes has an entry and satisfies its checks *)
 Definition word_checked (e : venv) (ip w : N) : Prop :=
   exists cs adv, decode (w_op w) = DEntry cs adv /\ forallb (check_ok e ip w) cs = true.
 
-Lemma scan_sound (e : venv) (code : list N) :
-  forall fuel i, scan fuel e code i = VOk ->
-  forall fuel2 target w, on_grid_from fuel2 code i target = true -> nthN code target = Some w ->
-  word_checked e target w.
+Definition scan_ok_from (e : venv) (code : list N) (i : N) : Prop := exists fuel, scan fuel e code i = VOk.
+
+Lemma scan_ok_step (e : venv) (code : list N) (i w : N) :
+  scan_ok_from e code i -> nthN code i = Some w ->
+  word_checked e i w /\ scan_ok_from e code (i + adv_of w).
 Proof.
-  induction fuel as [|k IH]; intros i Hs fuel2 target w Hg Hw; [discriminate|].
-  cbn [scan] in Hs.
-  destruct fuel2 as [|k2]; [discriminate|]. cbn [on_grid_from] in Hg.
-  destruct (i =? target) eqn:E.
-  - apply N.eqb_eq in E. subst i. rewrite Hw in Hs.
-    destruct (decode (w_op w)) as [| | |cs adv] eqn:D; try discriminate.
-    destruct (forallb (check_ok e target w) cs) eqn:F; [|discriminate].
-    exists cs, adv. split; [exact D|exact F].
-  - destruct (target <? i); [discriminate|].
-    destruct (nthN code i) as [w'|] eqn:Hi; [|discriminate].
-    destruct (decode (w_op w')) as [| | |cs adv] eqn:D; try discriminate.
-    destruct (forallb (check_ok e i w') cs); [|discriminate].
-    rewrite (decode_entry_adv _ _ _ D) in Hs.
-    exact (IH _ Hs _ _ _ Hg Hw).
+  intros [fuel H] Hw. destruct fuel as [|k]; [discriminate|]. cbn [scan] in H. rewrite Hw in H.
+  destruct (decode (w_op w)) as [| | |cs adv] eqn:D; try discriminate.
+  destruct (forallb (check_ok e i w) cs) eqn:F; [|discriminate].
+  split; [exists cs, adv; split; [exact D|exact F]|].
+  rewrite (decode_entry_adv _ _ _ D) in H. exists k. exact H.
+Qed.
+
+Lemma grid_scan_ok (e : venv) (code : list N) (i : N) :
+  scan_ok_from e code 0 -> grid code i -> scan_ok_from e code i.
+Proof.
+  intros H0 G. induction G as [|i w G IH Hw]; [exact H0|].
+  exact (proj2 (scan_ok_step e code i w IH Hw)).
 Qed.
 
 Lemma verify_body_scan (f : func) :
-  verify_body f = VOk -> scan (S (length (f_code f))) (env_of f) (f_code f) 0 = VOk.
+  verify_body f = VOk -> scan_ok_from (env_of f) (f_code f) 0.
 Proof.
   unfold verify_body. intros H.
   destruct (negb (forallb (const_ok (len (f_nested f))) (f_consts f))); [discriminate|].
-  destruct (65535 <? len (f_consts f)); [discriminate|]. exact H.
+  destruct (65535 <? len (f_consts f)); [discriminate|]. eexists. exact H.
+Qed.
+
+Lemma grid_checked (f : func) (ip w : N) :
+  verify_body f = VOk -> grid (f_code f) ip -> nthN (f_code f) ip = Some w -> word_checked (env_of f) ip w.
+Proof.
+  intros V G Hw.
+  exact (proj1 (scan_ok_step _ _ ip w (grid_scan_ok _ _ ip (verify_body_scan f V) G) Hw)).
 Qed.
 
 Lemma verifier_linear_sound_lemma (f : func) :
   verify_body f = VOk ->
   forall ip w, on_grid (f_code f) ip = true -> nthN (f_code f) ip = Some w ->
   word_checked (env_of f) ip w.
-Proof.
-  intros H ip w Hg Hw. unfold on_grid in Hg.
-  exact (scan_sound _ _ _ _ (verify_body_scan f H) _ _ _ Hg Hw).
-Qed.
+Proof. intros V ip w G Hw. exact (grid_checked f ip w V (on_grid_sound _ _ G) Hw). Qed.
 
 Lemma verify_at_body (d : N) (f : func) : verify_at d f = VOk -> verify_body f = VOk.
 Proof.
@@ -98,16 +127,16 @@ Proof.
   destruct HIn as [->|HIn]; [exact Eh|exact (IH H HIn)].
 Qed.
 
-(* individual checks, in the form the footprint proofs use *)
 Lemma nthN_lt {A} (l : list A) (i : N) (x : A) : nthN l i = Some x -> i < len l.
 Proof.
   unfold nthN, len. intros H.
   assert (N.to_nat i < length l)%nat by (apply nth_error_Some; congruence). lia.
 Qed.
 
-Lemma nthN_none {A} (l : list A) (i : N) : nthN l i = None -> len l <= i.
+Lemma nthN_some {A} (l : list A) (i : N) : i < len l -> exists x, nthN l i = Some x.
 Proof.
-  unfold nthN, len. intros H. apply nth_error_None in H. lia.
+  unfold nthN, len. intros H. destruct (nth_error l (N.to_nat i)) as [x|] eqn:E; [exists x; reflexivity|].
+  apply nth_error_None in E. lia.
 Qed.
 
 Lemma checked_cachewords (e : venv) (ip w : N) (cs : list chk) :
@@ -119,4 +148,22 @@ Proof.
   apply orb_true_iff in X as [X|X].
   - destruct c; try discriminate. cbn [check_ok] in F1. lia.
   - exact (IH F2 X).
+Qed.
+
+(* ---- jump targets (KF-C04-1 repaired: check_jump consults the instruction starts) -------------- *)
+Lemma jump_grid_present : jump_grid_checked = true.
+Proof. reflexivity. Qed.
+
+Lemma checked_jump (e : venv) (ip w : N) (cs : list chk) :
+  forallb (check_ok e ip w) cs = true -> existsb (fun c => match c with CJump => true | _ => false end) cs = true ->
+  let t := Z.to_N (jump_target ip w) in
+  t <= v_len e /\ (t = v_len e \/ grid (v_code e) t).
+Proof.
+  induction cs as [|c r IH]; cbn [forallb existsb]; intros F X; [discriminate|].
+  apply andb_true_iff in F as [F1 F2].
+  apply orb_true_iff in X as [X|X]; [|exact (IH F2 X)].
+  destruct c; try discriminate. cbn [check_ok] in F1. rewrite jump_grid_present in F1.
+  apply andb_true_iff in F1 as [F1 F3]. apply andb_true_iff in F1 as [Fa Fb].
+  cbv zeta. split; [lia|].
+  apply orb_true_iff in F3 as [F3|F3]; [left; lia|right; exact (on_grid_sound _ _ F3)].
 Qed.
